@@ -29,9 +29,9 @@ impl Check for C08 {
     }
     fn n_runs(&self, thorough: bool) -> u64 {
         if thorough {
-            120_000
+            1_300_000
         } else {
-            4_000
+            30_000
         }
     }
     fn gen_plan(&self, seed: u64, _idx: u64, _t: bool) -> Value {
